@@ -85,6 +85,11 @@ func GetMaxReplicaCountAndDeleteSlots(replicas int32, deleteSlots sets.Int32) (i
 		deleteSlotsCopy.Insert(k)
 	}
 	for _, deleteSlot := range deleteSlotsCopy.List() {
+		if deleteSlot < 0 {
+			// no pod has a negative ordinal, so such a slot must not extend the range
+			deleteSlotsCopy.Delete(deleteSlot)
+			continue
+		}
 		if deleteSlot < replicaCount {
 			replicaCount++
 		} else {
